@@ -480,6 +480,67 @@ def cys_contact(rng, partner=("LYS", "NZ")):
     return None
 
 
+def align_peptide_plane(rng, lines):
+    """the structure turned rigidly (a general rotation, coordinates re-rounded to the 0.001 A grid once) so that a backbone nitrogen,
+    the carbonyl carbon bonded to it and its own CA share one coordinate *exactly* - a peptide plane parallel to a coordinate plane,
+    as model builders and idealised peptides have it.  None if the structure has no peptide bond."""
+    atoms = [l for l in lines if is_atom(l) and l.startswith("ATOM")]
+    ns = [l for l in atoms if l[12:16].strip() == "N" and l[17:20] != "PRO"]
+    rng.shuffle(ns)
+    for n in ns:
+        pn = coords(n)
+        ca = [coords(l) for l in atoms if l[12:16].strip() == "CA" and res_key(l) == res_key(n)]
+        cp = [coords(l) for l in atoms if l[12:16].strip() == "C" and res_key(l) != res_key(n) and sum((a - b) ** 2 for a, b in zip(coords(l), pn)) < 1.6 ** 2]
+        if len(ca) != 1 or len(cp) != 1:
+            continue
+        u = [ca[0][k] - pn[k] for k in range(3)]
+        v = [cp[0][k] - pn[k] for k in range(3)]
+        nrm = [u[1] * v[2] - u[2] * v[1], u[2] * v[0] - u[0] * v[2], u[0] * v[1] - u[1] * v[0]]
+        ln = sum(x * x for x in nrm) ** 0.5
+        if ln < 0.5:
+            continue
+        nrm = [x / ln for x in nrm]
+        ax = rng.randrange(3)
+        e = [0.0, 0.0, 0.0]
+        e[ax] = 1.0
+        # rotation taking nrm to e (Rodrigues about nrm x e)
+        k = [nrm[1] * e[2] - nrm[2] * e[1], nrm[2] * e[0] - nrm[0] * e[2], nrm[0] * e[1] - nrm[1] * e[0]]
+        s_ = sum(x * x for x in k) ** 0.5
+        c_ = sum(a * b for a, b in zip(nrm, e))
+        if s_ < 1e-9:
+            continue
+        k = [x / s_ for x in k]
+
+        def rot(p):
+            d = sum(a * b for a, b in zip(k, p))
+            cr = [k[1] * p[2] - k[2] * p[1], k[2] * p[0] - k[0] * p[2], k[0] * p[1] - k[1] * p[0]]
+            return [p[i] * c_ + cr[i] * s_ + k[i] * d * (1 - c_) for i in range(3)]
+        common = round(rot(pn)[ax], 3)
+        special = {id(n)} | {id(l) for l in atoms if (l[12:16].strip() == "CA" and res_key(l) == res_key(n))
+                             or (l[12:16].strip() == "C" and res_key(l) != res_key(n) and sum((a - b) ** 2 for a, b in zip(coords(l), pn)) < 1.6 ** 2)}
+        out = []
+        for l in lines:
+            if not is_atom(l):
+                out.append(l)
+                continue
+            q = [round(x, 3) for x in rot(coords(l))]
+            if id(l) in special:
+                q[ax] = common
+            out.append(set_coords(l, *q))
+        return out
+    return None
+
+
+def chain_in_later_conformation(rng, nchains=2):
+    """a multi-chain structure in which every atom of the last chain carries the alternate-location tag B and nothing else is
+    tagged: the first conformation owns no atom of that chain and receives it only through topping-up"""
+    lines, ids = multichain(rng, nchains=nchains, chains="ABCDEF", twins=0.0, separation=12.0)
+    if len(ids) < 2:
+        return None
+    last = ids[-1]
+    return [setcols(l, 16, 17, "B") if is_atom(l) and l[21] == last else l for l in lines]
+
+
 def polar_contact(rng, first=("TYR", "OH"), partner=("LYS", "NZ"), dmin=2.6, dmax=3.0, tries=200):
     """two short peptides from the library, one around a `first` residue and one around a `partner` residue, the second moved rigidly
     so that the two named atoms are dmin..dmax apart and no other atoms of the two peptides come closer than 3 A; chains A and B.
